@@ -280,7 +280,11 @@ def judge(idsets, flags, seed):
 
 def id_layouts(tier):
     out = [[[10, 20, 30], [40, 50]], [[130, 110, 120, 140], [30, 10, 20, 40]], [[5, 50, 500], [6, 60, 600]], [[3, 2, 1]], [[7], [], [5, 6]],
-           [[100, 1], [50, 51], [2, 99]], [[1, 2, 3]], [[], []], [[9, 8], [7, 6], [5, 4]]]
+           [[100, 1], [50, 51], [2, 99]], [[1, 2, 3]], [[], []], [[9, 8], [7, 6], [5, 4]],
+           # 64-bit ids that differ only below the float64 mantissa (real catalogue ids are wide bit fields): a lookup through float64 merges them
+           [[2 ** 53 + 3, 2 ** 53 + 1, 2 ** 53 + 2], [2 ** 60 + 5, 2 ** 60 + 4, 7]],
+           # three slabs in rotated order with unequal sizes (a permutation that is not its own inverse)
+           [[40, 41, 42, 43], [70, 71], [10, 11, 12]]]
     return out if tier == 'quick' else out + [[[k * 7 % 23 + 1 for k in range(12)][i::3] for i in range(3)]]
 
 
@@ -306,7 +310,7 @@ def check(run):
     if bad:
         run.bounded_violation('staging rows misaligned', bad[0], bad[1])
     run.add_bounded('real AbacusHOD.staging on synthetic HDF5 slabs', nev, nev,
-                    'id layouts: increasing, decreasing, interleaved across 1-3 slabs, empty slabs, empty catalogue; flags assembly bias / shear (+MT files) / exponential velocities / ranks',
+                    'id layouts: increasing, decreasing, interleaved, rotated across 1-3 slabs, empty slabs, empty catalogue, ids above 2^53 differing in the low bits; flags assembly bias / shear (+MT files) / exponential velocities / ranks',
                     [dict(slab_ids=[[130, 110, 120, 140], [30, 10, 20, 40]], flags=dict(AB=True))])
     run.extra['explanation'] = ('row alignment decided for all inputs by a structural analysis of the real AST (one argsort permutation applied to every '
                                 'per-halo array that reaches halo_data; uniform slab windows) under the numpy contracts for fancy indexing and argsort; '
